@@ -1975,6 +1975,34 @@ def r20_6(prog, rep, rid='R20.6'):
                               'it on every path of the finally: keys ' \
                               'added by the request are not removed' \
                               % short(st, 40)
+            if msg is None and good_restore:
+                # ... and on every way through the finally (block membership
+                # by must-pass, not by indentation)
+                rnodes = []
+                for st, nm in good_restore:
+                    rnodes += g.nodes_of(st) if not isinstance(st, ast.For) \
+                        else [n for n in g.nodes if n.ast is st]
+                rids = [n.id for n in rnodes]
+                if not rids or not all(
+                        must_pass(g, first.id, end, rids)
+                        for end in (g.exit.id, g.raise_.id)):
+                    from ..flow import guard_atoms
+                    conds = []
+                    for n in rnodes:
+                        for a, pol in guard_atoms(g, n.id, start=first.id):
+                            t = ('`%s`' if pol else 'not `%s`') % short(a, 30)
+                            if t not in conds:
+                                conds.append(t)
+                    msg = 'is restored (`%s`) only on some of the ways ' \
+                          'through the `finally`%s: on the others the ' \
+                          'dispatcher returns with what the request changed ' \
+                          'still in place' % (
+                              short(good_restore[0][0], 40),
+                              ' (only when %s)' % ' and '.join(conds)
+                              if conds else '')
+                    if conds:
+                        hist = 'a request for which %s does not hold: %s' % (
+                            ' and '.join(conds), hist)
             rep.check(msg is None, rid, f, '%s is restored in the finally '
                       'from its own save' % what, construct='restore:%s' % r,
                       message='%s: %s %s' % (f.qual, what, msg),
@@ -2075,6 +2103,277 @@ def r20_6(prog, rep, rid='R20.6'):
                       % (f.qual, 'an exception' if cls == 'success' else
                          '(None, None) as exception', cls, want),
                       loc=f.loc(seen[cls][0][0]), history=hist)
+
+
+# ------------------------------------------------------------------------------
+# R20.11  the exit code of a child process is read after the process was
+#         waited for (fresh value)
+#
+WAITS = ('communicate', 'wait')
+
+
+def _popen_defs(f, g):
+    """{name: [cfg node]}: locals bound to a subprocess.Popen(...) object"""
+    out = {}
+    for n in g.nodes:
+        if n.ast is None:
+            continue
+        pairs = []
+        if n.kind == 'stmt' and isinstance(n.ast, ast.Assign) and \
+                len(n.ast.targets) == 1 and \
+                isinstance(n.ast.targets[0], ast.Name):
+            pairs.append((n.ast.targets[0].id, n.ast.value))
+        elif n.kind == 'with':
+            for it in n.ast.items:
+                if isinstance(it.optional_vars, ast.Name):
+                    pairs.append((it.optional_vars.id, it.context_expr))
+        for nm, v in pairs:
+            if isinstance(v, ast.Call) and \
+                    (call_name(v) or '').split('.')[-1] == 'Popen':
+                out.setdefault(nm, []).append(n)
+    return out
+
+
+def _node_exprs(n):
+    if n.kind == 'for':
+        return [n.ast.iter]
+    if n.kind == 'with':
+        return [i.context_expr for i in n.ast.items]
+    if n.kind in ('while', 'dispatch', 'handler'):
+        return []
+    return [n.ast]
+
+
+def r20_11(prog, rep, rid='R20.11', tier='quick'):
+    rep.rule(rid, 'the exit code a process dispatcher reports is read from '
+             'the child process object after the process was waited for '
+             '(communicate / wait) on every path', minimum=2)
+    W = prog.cls(*WK)
+    names = ['_dispatch_proc', '_dispatch_shell']
+    if tier == 'thorough':
+        names = sorted(W.methods)
+    for mname in names:
+        f = prog.method(WK[0], WK[1], mname)
+        rep.saw(f)
+        found = 0
+        funcs = all_funcs(f)
+        for c in calls_in(f.node):
+            # helpers of the class / module the dispatcher hands the work to
+            h = prog.resolve_call(f, c, W)
+            if h is not None and h.module is f.module and \
+                    not h.name.startswith('_dispatch') and \
+                    all(h.node is not k.node for k in funcs):
+                funcs += all_funcs(h)
+        for fn in funcs:
+            g = cfg_of(fn)
+            defs = _popen_defs(fn, g)
+            if not defs:
+                continue
+            for n in g.nodes:
+                if n.ast is None:
+                    continue
+                for root in _node_exprs(n):
+                    for x in walk(root):
+                        if not (isinstance(x, ast.Attribute) and
+                                x.attr == 'returncode' and
+                                isinstance(x.ctx, ast.Load) and
+                                isinstance(x.value, ast.Name) and
+                                x.value.id in defs):
+                            continue
+                        nm = x.value.id
+                        found += 1
+                        waits = []
+                        for m in g.nodes:
+                            if m.ast is None:
+                                continue
+                            if any(isinstance(c, ast.Call) and
+                                   isinstance(c.func, ast.Attribute) and
+                                   c.func.attr in WAITS and
+                                   isinstance(c.func.value, ast.Name) and
+                                   c.func.value.id == nm
+                                   for r in _node_exprs(m) for c in walk(r)):
+                                waits.append(m.id)
+                        # a wait which raises (timeout) has not completed: its
+                        # exception edge does not count as having waited
+                        skip = [(w, lab) for w in waits for lab in NONEXC]
+                        stale = n.id not in waits and any(
+                            n.id in g.reachable(d.id, skip_edges=skip)
+                            for d in defs[nm] if d.id != n.id)
+                        rep.check(not stale, rid, fn,
+                                  '`%s` is read after %s.communicate() / '
+                                  '.wait()' % (short(x, 30), nm),
+                                  construct='stale %s.returncode' % nm,
+                                  message='%s reads `%s` on a path on which '
+                                  'the process started by `%s = ...Popen(..)` '
+                                  'was not waited for yet (%s): '
+                                  'Popen.returncode is None until the process '
+                                  'was waited for, so the value taken here is '
+                                  'the stale None, not the exit code of the '
+                                  'command' % (
+                                      fn.qual, short(x, 30), nm,
+                                      'no %s.communicate() / %s.wait() in '
+                                      'this function' % (nm, nm) if not waits
+                                      else 'the %s.%s() call comes later' % (
+                                          nm, '/'.join(WAITS))),
+                                  loc=fn.loc(x),
+                                  history="a task.proc request `/bin/sh -c "
+                                  "'exit 0'`: the worker reports exit code "
+                                  "None, Master._result_cb maps it to -1 and "
+                                  "the request which succeeded ends FAILED "
+                                  "(one which failed reports None instead of "
+                                  "its non-zero code)")
+        if not found and mname in ('_dispatch_proc', '_dispatch_shell'):
+            rep.ok(rid, f, '%s: no Popen object, the exit code is the result '
+                   'of a synchronous call' % mname, f.loc())
+
+
+# ------------------------------------------------------------------------------
+# R20.12  whoever waits for a request in a table is woken for EVERY answer
+#         that is in the table (wake-up depends on the table only)
+#
+def _waiter_tables(C):
+    """[(method, table attr, event name)]: `self.<T>[k] = [.., event, ..]`
+    (or `= event`) followed by `event.wait()` in a method of C"""
+    out = []
+    for mname, m in sorted(C.methods.items()):
+        waits = {c.func.value.id for c in calls_in(m.node)
+                 if isinstance(c.func, ast.Attribute) and
+                 c.func.attr == 'wait' and isinstance(c.func.value, ast.Name)}
+        if not waits:
+            continue
+        for n in walk(m.node):
+            if not isinstance(n, ast.Assign):
+                continue
+            for t in n.targets:
+                if not (isinstance(t, ast.Subscript) and
+                        (dotted(t.value) or '').startswith('self.') and
+                        dotted(t.value).count('.') == 1):
+                    continue
+                vals = n.value.elts if isinstance(
+                    n.value, (ast.List, ast.Tuple)) else [n.value]
+                for v in vals:
+                    if isinstance(v, ast.Name) and v.id in waits:
+                        out.append((m, dotted(t.value)[5:], v.id))
+    return out
+
+
+class _TableReads:
+    """does an expression of f read self.<T> - directly or through locals
+    whose definitions do (flow insensitive)"""
+
+    def __init__(self, f, table):
+        self.path = 'self.' + table
+        self.defs = {}
+        for n in walk(f.node):
+            if isinstance(n, ast.Assign):
+                for t in n.targets:
+                    for nm in stores_in_target(t):
+                        self.defs.setdefault(nm, []).append(n.value)
+            elif isinstance(n, ast.NamedExpr) and \
+                    isinstance(n.target, ast.Name):
+                self.defs.setdefault(n.target.id, []).append(n.value)
+
+    def reads(self, e, _seen=None):
+        seen = set() if _seen is None else _seen
+        for n in walk(e):
+            if isinstance(n, ast.Attribute) and dotted(n) == self.path:
+                return True
+            if isinstance(n, ast.Name) and isinstance(n.ctx, ast.Load) and \
+                    n.id not in seen:
+                seen.add(n.id)
+                if any(self.reads(v, seen) for v in self.defs.get(n.id, [])):
+                    return True
+        return False
+
+
+def r20_12(prog, rep, rid='R20.12'):
+    rep.rule(rid, 'a method which parks a thread on an event it entered into '
+             'a table self.<T> is paired with a callback that sets the event '
+             '(and stores the answer) for every answer found in the table: '
+             'inside the callback, whether the wake-up runs depends on tests '
+             'of the table only', minimum=3)
+    M = prog.cls(*MA)
+    tables = _waiter_tables(M)
+    if not tables:
+        raise AnalysisError('UNRECOGNISED-IDIOM %s: no method waits on an '
+                            'event it registered in a table' % M.where)
+    for reg, T, evname in tables:
+        rep.saw(reg)
+        wakers = 0
+        for mname, f in sorted(M.methods.items()):
+            if f is reg:
+                continue
+            tr = _TableReads(f, T)
+            g = cfg_of(f)
+            smap = I.stmt_node_map(g)
+            acts = []                  # (cfg node, stmt, 'wake' | 'answer')
+            for n in walk(f.node):
+                if isinstance(n, ast.Expr) and isinstance(n.value, ast.Call) \
+                        and isinstance(n.value.func, ast.Attribute):
+                    c = n.value
+                    if not tr.reads(c.func.value):
+                        continue
+                    if c.func.attr == 'set' and not c.args:
+                        acts.append((smap.get(id(n)), n, 'wake'))
+                    elif c.func.attr in ('append', 'extend', 'insert',
+                                         'update'):
+                        acts.append((smap.get(id(n)), n, 'answer'))
+                elif isinstance(n, (ast.Assign, ast.AugAssign)):
+                    tg = n.targets if isinstance(n, ast.Assign) else [n.target]
+                    if any(isinstance(t, ast.Subscript) and tr.reads(t.value)
+                           for t in tg):
+                        acts.append((smap.get(id(n)), n, 'answer'))
+            if not any(k == 'wake' for _, _, k in acts):
+                continue
+            wakers += 1
+            rep.saw(f)
+            for node, stmt, kind in acts:
+                if node is None:
+                    continue
+                head = node.loops[-1] if node.loops else None
+                inside = g.loop_body[head] if head is not None else None
+                foreign = []
+                for t in g.nodes:
+                    if t.kind != 'test' or \
+                            (inside is not None and t.id not in inside):
+                        continue
+                    skip = {t.id} | ({head} if head is not None else set())
+                    reach = [node.id in g.reachable(e.dst, skip_nodes=skip)
+                             or e.dst == node.id
+                             for e in g.succ[t.id] if e.label in ('T', 'F')]
+                    if any(reach) and not all(reach) and not tr.reads(t.ast):
+                        foreign.append(t)
+                what = 'the waiting thread is woken' if kind == 'wake' else \
+                    'the answer is stored for the waiting thread'
+                rep.check(not foreign, rid, f,
+                          '%s: `%s` depends on self.%s only' % (
+                              f.qual, short(stmt, 40), T),
+                          construct='%s:%s' % (kind, T),
+                          message='%s: whether `%s` runs for a received '
+                          'request (%s) depends on `%s`, which is not a test '
+                          'of self.%s: a request which %s entered into '
+                          'self.%s and for which that test goes the other '
+                          'way is never %s, its `%s.wait()` never returns'
+                          % (f.qual, short(stmt, 40), what,
+                             short(foreign[0].ast, 40) if foreign else '',
+                             T, reg.qual, T,
+                             'signalled' if kind == 'wake' else 'answered',
+                             evname),
+                          loc=f.loc(foreign[0].ast if foreign else stmt),
+                          history='a worker calls master.run_task() for an '
+                          'executable request: the agent executes it and it '
+                          'comes back through raptor_state_update with its '
+                          'target state already set; %s skips the wake-up, '
+                          'the %s thread (and the worker behind it) blocks '
+                          'for ever and the entry stays in self.%s'
+                          % (f.qual, reg.qual, T))
+        rep.check(wakers > 0, rid, reg, 'self.%s: a callback sets the event '
+                  'the registering thread waits for' % T,
+                  construct='waker:%s' % T,
+                  message='%s waits on the event it stored in self.%s, but no '
+                  'other method of %s sets an event of that table: the call '
+                  'never returns' % (reg.qual, T, M.name), loc=reg.loc(),
+                  history='any master.run_task() call blocks for ever')
 
 
 # ------------------------------------------------------------------------------
@@ -3313,6 +3612,161 @@ def r20_10(prog, rep, rid='R20.10'):
                           loc=m.loc(stmt), history=hist)
 
 
+# ------------------------------------------------------------------------------
+# R20.13  a cell of the backlog / of the queue table is read in a branch that
+#         a membership test opens only when the test is on THAT table
+#
+QUEUES = 'self._raptor_queues'
+
+
+def _member_guards(P, node, key, key_names):
+    """{container path: 'present' | 'absent'}: what the membership tests
+    `key in self.<X>` among the guards of node say (tests held in a local are
+    followed to their definition when the table was not touched in between)"""
+    out = {}
+    for tid, lab in guards(P.g, node.id):
+        a = P.g.nodes[tid].ast
+        at = tid
+        if isinstance(a, ast.Name):
+            ds = P.rdefs(a.id, tid)
+            if len(ds) == 1 and ds[0][1] is not None and \
+                    ds[0][0].kind == 'stmt':
+                a, at = ds[0][1], ds[0][0].id
+        neg = False
+        while isinstance(a, ast.UnaryOp) and isinstance(a.op, ast.Not):
+            a, neg = a.operand, not neg
+        if neg:
+            lab = 'F' if lab == 'T' else 'T'
+        if not (isinstance(a, ast.Compare) and len(a.ops) == 1 and
+                isinstance(a.ops[0], (ast.In, ast.NotIn))):
+            continue
+        c = P.canon(a, at)
+        cont = c.comparators[0]
+        if isinstance(cont, ast.Call) and isinstance(cont.func, ast.Attribute) \
+                and cont.func.attr == 'keys' and not cont.args:
+            cont = cont.func.value
+        ct = unparse(cont)
+        if not (ct.startswith('self.') and ct.count('.') == 1 and
+                isinstance(cont, ast.Attribute)) or \
+                unparse(c.left) != key or \
+                not P.same_binding(key_names, at, node.id):
+            continue
+        if at != tid:
+            anc, todo = set(), [tid]
+            while todo:
+                for e in P.g.pred[todo.pop()]:
+                    if not e.back and e.src not in anc:
+                        anc.add(e.src)
+                        todo.append(e.src)
+            between = (P.g.reachable(at, no_back=True) & anc) - {at}
+            touched = False
+            for x in between:
+                xn = P.g.nodes[x]
+                if xn.kind != 'stmt' or xn.ast is None or isinstance(
+                        xn.ast, (ast.FunctionDef, ast.AsyncFunctionDef,
+                                 ast.ClassDef)):
+                    continue
+                if any(_is_prefix(ct, unparse(P.canon(t, x)))
+                       for k, t, st in I.stores(xn.ast)):
+                    touched = True
+            if touched:
+                continue
+        absent = isinstance(a.ops[0], ast.NotIn) == (lab == 'T')
+        out[ct] = 'absent' if absent else 'present'
+    return out
+
+
+def r20_13(prog, rep, rid='R20.13'):
+    rep.rule(rid, 'in the agent scheduler a cell self._raptor_tasks[k] / '
+             'self._raptor_queues[k] that is read or deleted in a branch '
+             'opened by a membership test of the same key is opened by a test '
+             'on that very table (or the cell was stored on the way): a test '
+             'on the other table opens the branch for the wrong keys',
+             minimum=4)
+    C = prog.cls(*SCH)
+    tables = (BACKLOG, QUEUES)
+    attrs = {t.split('.', 1)[1] for t in tables}
+    for mname, m0 in sorted(C.methods.items()):
+        if mname == '__init__':
+            continue
+        for m in all_funcs(m0):
+            if not any(isinstance(x, ast.Attribute) and x.attr in attrs
+                       for x in walk(m.node)):
+                continue
+            P = _Paths(prog, m)
+            g = P.g
+            seen_site = set()
+            for n in g.nodes:
+                if n.ast is None or n.kind in ('while', 'dispatch',
+                                               'handler') or isinstance(
+                        n.ast, (ast.FunctionDef, ast.AsyncFunctionDef,
+                                ast.ClassDef)):
+                    continue
+                aug = n.ast.target if n.kind == 'stmt' and \
+                    isinstance(n.ast, ast.AugAssign) else None
+                for root in _node_exprs(n):
+                    for x in walk(root):
+                        if not isinstance(x, ast.Subscript):
+                            continue
+                        if isinstance(x.ctx, ast.Store) and x is not aug:
+                            continue
+                        c = P.canon(x, n.id)
+                        if not isinstance(c, ast.Subscript):
+                            continue
+                        T = unparse(c.value)
+                        if T not in tables:
+                            continue
+                        key = unparse(c.slice)
+                        knames = [k for k in _names(c.slice) if k != 'self']
+                        mg = _member_guards(P, n, key, knames)
+                        if not mg:
+                            continue
+                        site = (n.id, T, key)
+                        if site in seen_site:
+                            continue
+                        seen_site.add(site)
+                        rep.saw(m)
+                        other = sorted(t for t, v in mg.items()
+                                       if v == 'present' and t != T)
+                        good = mg.get(T) == 'present' or not other
+                        if not good:
+                            # the cell was stored on every way to the read
+                            stores = [k.id for k in g.nodes
+                                      if k.kind == 'stmt' and
+                                      isinstance(k.ast, ast.Assign) and any(
+                                          isinstance(t, ast.Subscript) and
+                                          unparse(P.canon(t, k.id)) ==
+                                          unparse(c) for t in k.ast.targets)
+                                      and P.same_binding(knames, k.id, n.id)]
+                            good = bool(stores) and n.id not in stores and \
+                                must_pass(g, g.entry.id, n.id, stores)
+                        if not good and mg.get(T) == 'absent':
+                            continue       # R20.10 reports this one
+                        rep.check(good, rid, m,
+                                  '%s: `%s` is read where `%s in %s` holds'
+                                  % (m.qual, short(x, 40), key, T),
+                                  construct='cell %s[%s] under %s' % (
+                                      T, key, '/'.join(other)),
+                                  message='%s: `%s` is read / removed in a '
+                                  'branch that is entered when `%s` is in %s, '
+                                  'not when it is in %s (no test on %s, no '
+                                  'store of the cell on the way): membership '
+                                  'test on the wrong table - the branch is '
+                                  'dead or fails with KeyError for a key that '
+                                  'only the tested table has, and the cell is '
+                                  'never drained for a key that only %s has'
+                                  % (m.qual, short(x, 40), key,
+                                     ' / '.join(other), T, T, T),
+                                  loc=m.loc(x),
+                                  history="requests with raptor_id '*' (or "
+                                  "for a master which has not registered yet) "
+                                  "are cached in %s[%s]; a master registers "
+                                  "its queue: the relay branch asks the other "
+                                  "table, is not entered, the cached requests "
+                                  "are never forwarded, never fail, never "
+                                  "complete" % (BACKLOG, key))
+
+
 def run(prog, rep, tier):
     rep.decided = ('DefaultWorker touches its occupancy lists only under '
         '_rlock; _alloc marks only cells it tested free, records exactly '
@@ -3367,8 +3821,11 @@ def run(prog, rep, tier):
     r20_4(prog, rep)
     r20_5(prog, rep)
     r20_6(prog, rep)
+    r20_11(prog, rep, tier=tier)
+    r20_12(prog, rep)
     r20_9(prog, rep, tier=tier)
     r20_10(prog, rep)
+    r20_13(prog, rep)
     rep.attempt(r20_7, prog, rep)
 
 
@@ -3896,6 +4353,101 @@ SILENT += [
     dict(name='R20.10 backlog through setdefault().extend()', edits=[
         (_B, _BL_BLOCK,
              "                        self._raptor_tasks.setdefault(name, []).extend(to_raptor[name])\n")]),
+]
+
+
+# ------------------------------------------------------------------------------
+# round 5: R20.6 restore on every way through the finally, R20.11 (exit code
+# read after the wait), R20.12 (wake-up of the run_task() waiter), R20.13
+# (membership test on the table that is read)
+#
+_FIN_FUNC = "                else:\n                    args.pop(0)\n\n            os.environ = old_env\n"
+_EVAL_FIN = ("            err = strerr.getvalue() + ('\\neval failed: %s' % e)\n            exc = (repr(e), '\\n'.join(ru.get_exception_trace()))\n            ret = 1\n\n"
+             "        finally:\n            # restore stdio\n            sys.stdout = bak_stdout\n            sys.stderr = bak_stderr\n\n            os.environ = old_env\n")
+_PROC_RET = "            out, err = proc.communicate()\n            ret      = proc.returncode\n"
+_PROC_NEW = "            proc = sp.Popen(cmd, env=env,  stdin=None,\n                            stdout=sp.PIPE, stderr=sp.PIPE,\n                            close_fds=True, shell=True)\n"
+_RES_STATE = ("            if not task.get('target_state'):\n\n                ret = task.get('exit_code')\n                if ret is None:\n                    ret = -1\n\n"
+              "                if int(ret) == 0: task['target_state'] = rps.DONE\n                else            : task['target_state'] = rps.FAILED\n")
+_RES_WAKE  = ("            if uid in self._task_service_data:\n\n                # update task info and signal task service thread\n"
+              "                self._log.debug('unlock 2 %s', uid)\n                self._task_service_data[uid].append(task)\n"
+              "                self._task_service_data[uid][0].set()\n")
+_STAR = "                if '*' in self._raptor_tasks:\n\n                    tasks = self._raptor_tasks['*']\n                    del self._raptor_tasks['*']\n"
+_NAME = "                if name in self._raptor_tasks:\n\n                    tasks = self._raptor_tasks[name]\n                    del self._raptor_tasks[name]\n\n                    self._log.debug('relay"
+
+MUTATIONS += [
+    dict(name='R20.6 seed C20-h2: environment restore slipped into `if comm:`', rules=('R20.6',), edits=[
+        (_W, _FIN_FUNC, "                else:\n                    args.pop(0)\n\n                os.environ = old_env\n")]),
+    dict(name='R20.6 eval: environment restored only after a failure', rules=('R20.6',), edits=[
+        (_W, _EVAL_FIN, _EVAL_FIN.replace("            os.environ = old_env\n", "            if ret:\n                os.environ = old_env\n"))]),
+    dict(name='R20.6 eval: stdout restored only when it was redirected to a non-empty buffer', rules=('R20.6',), edits=[
+        (_W, _EVAL_FIN, _EVAL_FIN.replace("            sys.stdout = bak_stdout\n", "            if strout:\n                sys.stdout = bak_stdout\n"))]),
+    dict(name='R20.11 seed C20-h3: returncode read before communicate()', rules=('R20.11',), edits=[
+        (_W, _PROC_RET, "            ret      = proc.returncode\n            out, err = proc.communicate()\n")]),
+    dict(name='R20.11 pipes read directly, the process is never waited for', rules=('R20.11',), edits=[
+        (_W, _PROC_RET, "            out, err = proc.stdout.read(), proc.stderr.read()\n            ret      = proc.returncode\n")]),
+    dict(name='R20.11 communicate() only for requests with arguments', rules=('R20.11',), edits=[
+        (_W, _PROC_RET, "            out, err = None, None\n            if args:\n                out, err = proc.communicate()\n            ret      = proc.returncode\n")]),
+    dict(name='R20.12 seed C20-h4: early continue for requests which have a target state', rules=('R20.12',), edits=[
+        (_M, _RES_STATE, "            if task.get('target_state'):\n                continue\n\n            ret = task.get('exit_code')\n            if ret is None:\n                ret = -1\n\n"
+                         "            if int(ret) == 0: task['target_state'] = rps.DONE\n            else            : task['target_state'] = rps.FAILED\n")]),
+    dict(name='R20.12 only requests which ended DONE wake their waiter', rules=('R20.12',), edits=[
+        (_M, _RES_WAKE, _RES_WAKE.replace("            if uid in self._task_service_data:\n", "            if uid in self._task_service_data and task['target_state'] == rps.DONE:\n"))]),
+    dict(name='R20.12 the loop stops at the first failed request of the bulk', rules=('R20.12',), edits=[
+        (_M, _RES_WAKE, "            if task['target_state'] == rps.FAILED:\n                break\n\n" + _RES_WAKE)]),
+    dict(name='R20.12 the answer is stored for every waiter, the event set only for exit code 0', rules=('R20.12',), edits=[
+        (_M, _RES_WAKE, _RES_WAKE.replace("                self._task_service_data[uid][0].set()\n", "                if task.get('exit_code') == 0:\n                    self._task_service_data[uid][0].set()\n"))]),
+    dict(name="R20.13 seed C20-h6: '*' looked up in the queue table", rules=('R20.13',), edits=[
+        (_B, _STAR, _STAR.replace("if '*' in self._raptor_tasks:", "if '*' in self._raptor_queues:"))]),
+    dict(name='R20.13 sibling: the backlog of the registering master is looked up in the queue table', rules=('R20.13',), edits=[
+        (_B, _NAME, _NAME.replace("if name in self._raptor_tasks:", "if name in self._raptor_queues:"))]),
+    dict(name='R20.13 unregister: the queue is deleted when the name is in the backlog', rules=('R20.13',), edits=[
+        (_B, "                if name not in self._raptor_queues:\n                    self._log.warn('raptor queue %s unknown [%s]', name, msg)\n",
+             "                if name not in self._raptor_tasks:\n                    self._log.warn('raptor queue %s unknown [%s]', name, msg)\n")]),
+    dict(name="R20.13 '*' test on the queue table held in a local", rules=('R20.13',), edits=[
+        (_B, _STAR, "                backlog = '*' in self._raptor_queues\n                if backlog:\n\n                    tasks = self._raptor_tasks['*']\n                    del self._raptor_tasks['*']\n")]),
+]
+
+SILENT += [
+    # R20.6
+    dict(name='eval: environment restored first in the finally', edits=[
+        (_W, _EVAL_FIN, _EVAL_FIN.replace("            # restore stdio\n            sys.stdout = bak_stdout\n            sys.stderr = bak_stderr\n\n            os.environ = old_env\n",
+                                          "            os.environ = old_env\n\n            # restore stdio\n            sys.stdout = bak_stdout\n            sys.stderr = bak_stderr\n"))]),
+    dict(name='func: environment restored before the communicator is removed', edits=[
+        (_W, _FIN_FUNC, "                else:\n                    args.pop(0)\n"),
+        (_W, "            sys.stderr = bak_stderr\n\n            # remove communicator from args again\n", "            sys.stderr = bak_stderr\n            os.environ = old_env\n\n            # remove communicator from args again\n")]),
+    dict(name='func: environment restored in both arms of `if comm:`', edits=[
+        (_W, _FIN_FUNC, "                else:\n                    args.pop(0)\n                os.environ = old_env\n            else:\n                os.environ = old_env\n")]),
+    # R20.11
+    dict(name='proc: an extra wait() between communicate() and the read', edits=[
+        (_W, _PROC_RET, "            out, err = proc.communicate()\n            proc.wait()\n            ret      = proc.returncode\n")]),
+    dict(name='proc: exit code taken from wait()', edits=[
+        (_W, _PROC_RET, "            out, err = proc.communicate()\n            ret      = proc.wait()\n")]),
+    dict(name='proc: Popen as a context manager', edits=[
+        (_W, _PROC_NEW + _PROC_RET, "            with sp.Popen(cmd, env=env,  stdin=None,\n                          stdout=sp.PIPE, stderr=sp.PIPE,\n                          close_fds=True, shell=True) as proc:\n"
+                                    "                out, err = proc.communicate()\n                ret      = proc.returncode\n")]),
+    dict(name='proc: streams and code through locals', edits=[
+        (_W, _PROC_RET, "            streams  = proc.communicate()\n            out, err = streams\n            code     = proc.returncode\n            ret      = code\n")]),
+    # R20.12
+    dict(name='result_cb: wake-up in early-continue form', edits=[
+        (_M, _RES_WAKE, "            if uid not in self._task_service_data:\n                continue\n\n            self._log.debug('unlock 2 %s', uid)\n"
+                        "            self._task_service_data[uid].append(task)\n            self._task_service_data[uid][0].set()\n")]),
+    dict(name='result_cb: wake-up through the entry held in a local', edits=[
+        (_M, _RES_WAKE, "            entry = self._task_service_data.get(uid)\n            if entry is not None:\n                self._log.debug('unlock 2 %s', uid)\n"
+                        "                entry.append(task)\n                entry[0].set()\n")]),
+    dict(name='result_cb: membership test held in a local', edits=[
+        (_M, _RES_WAKE, _RES_WAKE.replace("            if uid in self._task_service_data:\n", "            waiting = uid in self._task_service_data\n            if waiting:\n"))]),
+    dict(name='result_cb: target state kept with pass / else', edits=[
+        (_M, _RES_STATE, "            if task.get('target_state'):\n                pass\n            else:\n                ret = task.get('exit_code')\n                if ret is None:\n                    ret = -1\n\n"
+                         "                if int(ret) == 0: task['target_state'] = rps.DONE\n                else            : task['target_state'] = rps.FAILED\n")]),
+    # R20.13
+    dict(name="control_cb: '*' backlog taken with pop()", edits=[
+        (_B, _STAR, "                if '*' in self._raptor_tasks:\n\n                    tasks = self._raptor_tasks.pop('*')\n")]),
+    dict(name="control_cb: '*' test held in a local", edits=[
+        (_B, _STAR, "                backlog = '*' in self._raptor_tasks\n                if backlog:\n\n                    tasks = self._raptor_tasks['*']\n                    del self._raptor_tasks['*']\n")]),
+    dict(name="control_cb: '*' test on keys()", edits=[
+        (_B, _STAR, _STAR.replace("if '*' in self._raptor_tasks:", "if '*' in self._raptor_tasks.keys():"))]),
+    dict(name='control_cb: backlog table through a local alias', edits=[
+        (_B, _STAR, "                cached = self._raptor_tasks\n                if '*' in cached:\n\n                    tasks = cached['*']\n                    del cached['*']\n")]),
 ]
 
 from .c14 import corpus_variants          # noqa: E402
